@@ -259,15 +259,13 @@ _TMP = None
 
 def run(firmware, dev, device_id='28e9:0189', via_fifo=False, optimize=False):
     """run the real cli_main against `dev`; via_fifo: the firmware path is a named pipe fed by a writer thread"""
-    global _TMP
     dfu = load_dfu(optimize)
-    if _TMP is None:
-        _TMP = tempfile.mkdtemp(prefix='bbv-dfu-')
-    path = os.path.join(_TMP, 'fw-%d.bin' % os.getpid())
+    tmp = tempfile.mkdtemp(prefix='bbv-dfu-')          # one scratch directory per run, removed in the `finally` below
+    path = os.path.join(tmp, 'fw-%d.bin' % os.getpid())
     writer = None
     if via_fifo:
         import threading
-        path = os.path.join(_TMP, 'fw-%d.fifo' % os.getpid())
+        path = os.path.join(tmp, 'fw-%d.fifo' % os.getpid())
         if os.path.exists(path):
             os.unlink(path)
         os.mkfifo(path)
@@ -323,6 +321,8 @@ def run(firmware, dev, device_id='28e9:0189', via_fifo=False, optimize=False):
                 os.unlink(path)
             except OSError:
                 pass
+        import shutil
+        shutil.rmtree(tmp, ignore_errors=True)
     r.stdout = buf.getvalue()
     r.done_printed = 'done!' in r.stdout
     return r
